@@ -314,6 +314,8 @@ class CircuitOperation(ops.Operation):
             circuit = protocols.resolve_parameters(circuit, self.param_resolver, recursive=False)
         unitaries = [protocols.unitary(op) for op in circuit.all_operations()]
         dim = max((u.shape for u in unitaries), default=(1,))[0]
+        # An operation on no qubits (a global phase) is a 1x1 matrix: a scalar factor.
+        unitaries = [un if un.shape[0] == dim else un[0, 0] * np.eye(dim) for un in unitaries]
         u = np.eye(dim, dtype=np.complex128)
         u = reduce(lambda u1, u2: np.dot(u1, u2, out=u), reversed(unitaries), u)
 
